@@ -23,6 +23,7 @@ def getColumn (colsize left padding : Nat) : Nat :=
   if left + padding < colsize then colsize - left else padding
 
 def spaces (n : Nat) : List Char := List.replicate n ' '
+def indent4 : List Char := [' ', ' ', ' ', ' ']
 
 /-- `str::lines()`: split at `\n`, a final empty piece is dropped, one `\r` before a `\n` is stripped -/
 def linesAux : List Char → List Char → List (List Char)
@@ -37,7 +38,7 @@ def lines (s : List Char) : List (List Char) := linesAux s []
 
 /-- `LineWrapStr::wrap(prefix, content)` -/
 def lineWrap (pfx : List Char) (content : String) : List Char :=
-  (lines content.toList).flatMap fun l => pfx ++ l ++ ['\n']
+  (lines content.toList).flatMap fun l => pfx ++ (l ++ ['\n'])
 
 /-- `print_clear_state` -/
 def printClear : ClearState → List Char
@@ -50,7 +51,7 @@ def printDate (d : Date) : List Char := d.fmtSlash.toList
 
 /-- `Display for MetadataValue` -/
 def printMetaValue : MetaValue → List Char
-  | .expr e => "::".toList ++ ' ' :: e.toList
+  | .expr e => [':', ':'] ++ ' ' :: e.toList
   | .text t => ':' :: ' ' :: t.toList
 
 /-- `Display for Metadata` -/
@@ -60,24 +61,24 @@ def printMetadata : Metadata → List Char
   | .comment s => s.toList
 
 /-- `writeln!(f, "    ; {}", m)` -/
-def printMetaLine (m : Metadata) : List Char := "    ; ".toList ++ printMetadata m ++ ['\n']
+def printMetaLine (m : Metadata) : List Char := indent4 ++ ';' :: ' ' :: (printMetadata m ++ ['\n'])
 
 /-- `Display for Lot` -/
 def printLot (l : Lot) : List Char :=
   (match l.price with
-    | some (.total e) => " {{".toList ++ printVExpr e ++ "}}".toList
-    | some (.rate e) => " {".toList ++ printVExpr e ++ "}".toList
+    | some (.total e) => [' ', '{', '{'] ++ printVExpr e ++ ['}', '}']
+    | some (.rate e) => [' ', '{'] ++ printVExpr e ++ ['}']
     | none => []) ++
   (match l.date with
-    | some d => " [".toList ++ printDate d ++ "]".toList
+    | some d => [' ', '['] ++ printDate d ++ [']']
     | none => []) ++
   (match l.note with
-    | some n => " (".toList ++ n.toList ++ ")".toList
+    | some n => [' ', '('] ++ n.toList ++ [')']
     | none => [])
 
 def printCost : Option Exchange → List Char
-  | some (.rate v) => " @ ".toList ++ printVExpr v
-  | some (.total v) => " @@ ".toList ++ printVExpr v
+  | some (.rate v) => [' ', '@', ' '] ++ printVExpr v
+  | some (.total v) => [' ', '@', '@', ' '] ++ printVExpr v
   | none => []
 
 /-- the part of a posting line after the account: amount, lot, cost, balance -/
@@ -91,15 +92,14 @@ def printPostingTail (w : List Char → Nat) (accountWidth : Nat) (p : Posting) 
       let trailing := w (printVExpr b) - alignVExpr b
       let padding := if p.amount.isSome then 0 else getColumn (50 + trailing) accountWidth 3
       -- `{:>width$}` of " =" followed by " {}"
-      spaces (padding - 2) ++ " =".toList ++ ' ' :: printVExpr b
+      spaces (padding - 2) ++ [' ', '='] ++ ' ' :: printVExpr b
     | none => [])
 
 /-- `Display for WithContext<Posting>` -/
 def printPosting (w : List Char → Nat) (p : Posting) : List Char :=
   let clear := printClear p.clear
   let accountWidth := w p.account.toList + clear.length
-  "    ".toList ++ clear ++ p.account.toList ++ printPostingTail w accountWidth p ++ ['\n'] ++
-  p.metadata.flatMap printMetaLine
+  indent4 ++ (clear ++ (p.account.toList ++ (printPostingTail w accountWidth p ++ '\n' :: p.metadata.flatMap printMetaLine)))
 
 /-- the first line of a transaction -/
 def printTxnHeader (t : Transaction) : List Char :=
@@ -121,26 +121,26 @@ def printTransaction (w : List Char → Nat) (t : Transaction) : List Char :=
 def printAmount (d : PDec) (c : String) : List Char := printVExpr (.amt d c)
 
 def printAccountDetail : AccountDetail → List Char
-  | .comment s => lineWrap "    ;".toList s
-  | .note s => lineWrap "    note ".toList s
-  | .alias s => "    alias ".toList ++ s.toList ++ ['\n']
+  | .comment s => lineWrap (indent4 ++ [';']) s
+  | .note s => lineWrap (indent4 ++ (kwNote ++ [' '])) s
+  | .alias s => indent4 ++ (kwAlias ++ ' ' :: (s.toList ++ ['\n']))
 
 def printCommodityDetail : CommodityDetail → List Char
-  | .comment s => lineWrap "    ;".toList s
-  | .note s => lineWrap "    note ".toList s
-  | .alias s => "    alias ".toList ++ s.toList ++ ['\n']
-  | .format d c => "    format ".toList ++ printAmount d c ++ ['\n']
+  | .comment s => lineWrap (indent4 ++ [';']) s
+  | .note s => lineWrap (indent4 ++ (kwNote ++ [' '])) s
+  | .alias s => indent4 ++ (kwAlias ++ ' ' :: (s.toList ++ ['\n']))
+  | .format d c => indent4 ++ (kwFormat ++ ' ' :: (printAmount d c ++ ['\n']))
 
 /-- `Display for WithContext<LedgerEntry>` -/
 def printEntry (w : List Char → Nat) : Entry → List Char
   | .txn t => printTransaction w t
   | .comment s => lineWrap [';'] s
   | .applyTag k v =>
-    "apply tag ".toList ++ k.toList ++ (match v with | some v => printMetaValue v | none => []) ++ ['\n']
-  | .endApplyTag => "end apply tag\n".toList
-  | .include p => "include ".toList ++ p.toList ++ ['\n']
-  | .account n ds => "account ".toList ++ n.toList ++ ['\n'] ++ ds.flatMap printAccountDetail
-  | .commodity n ds => "commodity ".toList ++ n.toList ++ ['\n'] ++ ds.flatMap printCommodityDetail
+    kwApply ++ ' ' :: (kwTag ++ ' ' :: (k.toList ++ ((match v with | some v => printMetaValue v | none => []) ++ ['\n'])))
+  | .endApplyTag => kwEnd ++ ' ' :: (kwApply ++ ' ' :: (kwTag ++ ['\n']))
+  | .include p => kwInclude ++ ' ' :: (p.toList ++ ['\n'])
+  | .account n ds => kwAccount ++ ' ' :: (n.toList ++ '\n' :: ds.flatMap printAccountDetail)
+  | .commodity n ds => kwCommodity ++ ' ' :: (n.toList ++ '\n' :: ds.flatMap printCommodityDetail)
 
 /-- `FormatOptions::format`: every entry followed by an empty line -/
 def formatEntries (w : List Char → Nat) (es : List Entry) : List Char :=
@@ -331,6 +331,39 @@ def wfTransaction (t : Transaction) : Bool :=
   wfDate t.date && (match t.effectiveDate with | some d => wfDate d | none => true) &&
   (match t.code with | some c => c.toList.all (· != ')') | none => true) &&
   wfPayee t && t.metadata.all wfMetadata && t.posts.all wfPosting
+
+/-! ## `canonEntry`: the meaning of a tree — the grouping style of a number is part of the meaning only where
+there are thousands to group (C05's statement); everything else is kept -/
+
+def canonPDec (d : PDec) : PDec := if d.mant / 10 ^ d.scale < 1000 then { d with fmt := none } else d
+
+mutual
+def canonExpr : Expr → Expr
+  | .neg e => .neg (canonExpr e)
+  | .bin op l r => .bin op (canonExpr l) (canonExpr r)
+  | .val v => .val (canonVExpr v)
+def canonVExpr : VExpr → VExpr
+  | .paren e => .paren (canonExpr e)
+  | .amt d c => .amt (canonPDec d) c
+end
+
+def canonExchange : Exchange → Exchange
+  | .total v => .total (canonVExpr v)
+  | .rate v => .rate (canonVExpr v)
+
+def canonPostingAmount (a : PostingAmount) : PostingAmount :=
+  { amount := canonVExpr a.amount, cost := a.cost.map canonExchange,
+    lot := { a.lot with price := a.lot.price.map canonExchange } }
+
+def canonPosting (p : Posting) : Posting :=
+  { p with amount := p.amount.map canonPostingAmount, balance := p.balance.map canonVExpr }
+
+def canonEntry : Entry → Entry
+  | .txn t => .txn { t with posts := t.posts.map canonPosting }
+  | .commodity n ds => .commodity n (ds.map fun
+      | .format d c => .format (canonPDec d) c
+      | x => x)
+  | e => e
 
 /-- `WFEntry` -/
 def wfEntry : Entry → Bool
